@@ -337,3 +337,8 @@ def run(facts, rep, tier):
              "element is not bounded by the input; a self-containing insertion recurses forever).")
     rule_r2b(facts, rep)
     rule_r3(facts, rep)
+    rep.rule("C03-R4", "= C04-R3 for the per-note lookup tables: a re-parse replaces a note's line->node table (a table that accumulates keeps ids of tombstoned nodes, and the "
+             "handlers unwrap what they look up there).")
+    from . import c04
+    from .c06 import _MultiOnly
+    c04.rule_r3(facts, _MultiOnly(rep, ("nodes_map", "cache:")), "C03-R4")
